@@ -14,6 +14,7 @@ from ..gen import write_job, generate, run_in_pkg
 
 DEF = {
     "nodefault": ("Int", None, 7, None, None), "nodefault_unmapped": ("Raw", None, {"any": [1]}, None, None),
+    "nodefault_list_nullable_items": ("[Int]", None, [1, None], None, None), "nodefault_nested_list": ("[[Int]]", None, [[1, None], None], None, None),
     "nodefault_enum": ("Color", None, "RED", None, "enum"), "nodefault_object": ("Sub", None, {"a": 9}, "Sub", None), "int": ("Int", "5", 7, None, None), "float": ("Float", "1.5", 2.5, None, None),
     "float_int": ("Float", "1", 2.5, None, None), "string": ("String", '"abc"', "xyz", None, None),
     "string_quotes": ("String", '"it\'s \\"q\\" \\\\ x"', "v", None, None), "bool": ("Boolean", "true", False, None, None),
